@@ -49,6 +49,9 @@ type Case struct {
 	Via     string          `json:"via"` // db | conn
 	Tables  []gen.TableSpec `json:"tables"`
 	Ops     []Op            `json:"ops"`
+	// Lenient: a configuration outside AT's documented domain (global transaction without client-side
+	// interpolation): statements may be refused, but nothing may be left open and nothing may panic
+	Lenient bool `json:"lenient,omitempty"`
 }
 
 type opResult struct {
@@ -418,6 +421,16 @@ func runCase(c Case) *pt.Failure {
 		if _, open, _ := env.Srv.Stats(); open != 0 {
 			return pt.Failf("C16/"+c.Driver+"/"+c.Context+"/transaction-left-open", "after the proxied run an engine transaction is still open on %v\n%s", env.Srv.OpenTxConns(), describe(c, names, a, b))
 		}
+		if c.Lenient {
+			for i, rb := range b.results {
+				// (without client-side interpolation every parameterised statement takes the prepared path,
+				// whose failures incl. panics are known finding C16-K1)
+				if strings.HasPrefix(rb.Err, "PANIC") && !ctx.KnownActive("C16-K1") {
+					return pt.Failf("C16/"+c.Driver+"/lenient/panic/"+c.Ops[i].Kind, "op %d panicked: %s\n%s", i, rb.Err, describe(c, names, a, b))
+				}
+			}
+			return nil
+		}
 		split := len(c.Ops)
 		if c.Context == "global-then-plain" {
 			split = c.Split
@@ -662,8 +675,12 @@ func prop(driver string, contexts []string) func(rt *rapid.T) {
 		if c.Context != "plain" && c.DSN == 1 {
 			// AT needs client-side interpolation (interpolateParams=true, as in the project's samples):
 			// without it the target driver declines every parameterised image query
-			c.DSN = 0
-			ctx.Rec.Excluded("assumption:interpolateParams-in-global")
+			if rapid.IntRange(0, 3).Draw(rt, "lenient") == 0 {
+				c.Lenient = true // still run it: refused statements are fine, leftovers are not
+			} else {
+				c.DSN = 0
+				ctx.Rec.Excluded("assumption:interpolateParams-in-global")
+			}
 		}
 		nt := rapid.IntRange(1, 2).Draw(rt, "nTables")
 		for i := 0; i < nt; i++ {
